@@ -85,8 +85,16 @@ def _rows_of(flow, f, e, depth=0):
             and e.slice.step is not None and ast.unparse(e.slice.step) == "-1":
         r = _rows_of(flow, f, e.value, depth + 1)
         return _Rows(r.args, not r.rev) if r else None
-    if isinstance(e, ast.Call) and isinstance(e.func, ast.Name) and e.func.id == "zip" and len(e.args) >= 2 and not e.keywords:
+    if isinstance(e, ast.Call) and isinstance(e.func, ast.Name) and e.func.id == "zip" and len(e.args) >= 2 and not e.keywords \
+            and not any(isinstance(a, ast.Starred) for a in e.args):
         return _Rows(e.args, False)
+    if isinstance(e, ast.Call) and isinstance(e.func, ast.Name) and e.func.id == "zip" and len(e.args) == 1 and isinstance(e.args[0], ast.Starred) \
+            and isinstance(e.args[0].value, ast.Name):
+        # zip(*columns) with columns bound once to a tuple / list display
+        dv = flow.def_value(e.args[0].value)
+        if isinstance(dv, (ast.Tuple, ast.List)) and len(dv.elts) >= 2 and not any(isinstance(a, ast.Starred) for a in dv.elts):
+            return _Rows(dv.elts, False)
+        return None
     if isinstance(e, (ast.ListComp, ast.GeneratorExp)) and len(e.generators) == 1 and not e.generators[0].ifs:
         g = e.generators[0]
         src = _rows_of(flow, f, g.iter, depth + 1)
@@ -249,13 +257,30 @@ def strip_tolist(node):
 def resolve_vector(flow, node):
     """strip_tolist, continued through plain names whose definition is itself such a wrapper
     (`v = list(reversed(x.tolist()))` ; `dump(v)`).  -> (core, reversal)"""
-    core, rev = strip_tolist(node)
+    def elem(n):
+        # COLUMNS[k] with COLUMNS bound once to a tuple / list display
+        if isinstance(n, ast.Subscript) and isinstance(n.value, ast.Name) and not isinstance(n.slice, ast.Slice):
+            dv_ = flow.def_value(n.value)
+            k_ = None
+            if isinstance(n.slice, ast.Constant) and isinstance(n.slice.value, int):
+                k_ = n.slice.value
+            elif isinstance(n.slice, ast.UnaryOp) and isinstance(n.slice.op, ast.USub) and isinstance(n.slice.operand, ast.Constant):
+                k_ = -n.slice.operand.value
+            if isinstance(dv_, (ast.Tuple, ast.List)) and k_ is not None and -len(dv_.elts) <= k_ < len(dv_.elts):
+                return dv_.elts[k_]
+        return n
+    core, rev = strip_tolist(elem(node))
+    core = elem(core)
+    if core is not node:
+        c2, r2 = strip_tolist(core)
+        core, rev = c2, (rev != r2) if "by-value" not in (rev, r2) else "by-value"
     for _ in range(4):
         if rev == "by-value" or not isinstance(core, ast.Name):
             break
         dv = flow.def_value(core)
         if dv is None:
             break
+        dv = elem(dv)
         c2, r2 = strip_tolist(dv)
         if c2 is dv:
             break                       # defined by something else than a conversion / reversal: this is the array
